@@ -463,7 +463,194 @@ def c05(ctx):
         selftest(ctx, "UploadTrace", "UploadTrace.cfg", multi[0], [("stall", stall), ("chunk-not-observed-before-next", skip_observe)])
 
 
-CHECKS = {"C01": c01, "C04": c04, "C07": c07, "C05": c05, "C06": c06}
+def class_cases(dom, n, rnd, must=()):
+    """Each-class sweep (every class value of every field at least once) plus n seeded random
+    combinations from the class product exported by TLC."""
+    fields = sorted(dom.keys())
+    out = []
+
+    def mk(fixed):
+        c = {f: rnd.choice(dom[f]) for f in fields}
+        c.update(fixed)
+        return c
+    for m in must:
+        out.append(mk(m))
+    for f in fields:
+        for v in dom[f]:
+            out.append(mk({f: v}))
+    for _ in range(n):
+        out.append(mk({}))
+    return out
+
+
+def cap(c):
+    return {k[0].upper() + k[1:]: v for k, v in c.items()}
+
+
+def http_cases(ctx, which, n, must=()):
+    import random
+    gen = tlc_generate(ctx, "HttpMsgGen", "HttpMsgGen.cfg", "httpmsg_domains.json")
+    dom = json.load(open(gen))
+    rnd = random.Random(ctx.seed * 7919 + len(which))
+    cs = class_cases(dom[which], n, rnd, must)
+    prod = 1
+    for v in dom[which].values():
+        prod *= len(v)
+    ctx.extra["class_product_size"] = prod
+    ctx.extra["classes_per_field"] = {k: len(v) for k, v in dom[which].items()}
+    out = []
+    for i, c in enumerate(cs):
+        d = cap(c)
+        d["N"] = i + 1
+        out.append(d)
+    return out
+
+
+def http_validate(ctx, events, label):
+    """One segment per case so that every failing case is reported with its own signature."""
+    segs = []
+    for e in events:
+        if e.get("ev") in ("ReqCase", "RespCase", "IdCase", "ProcExit"):
+            segs.append([{"ev": "Reset", "seg": e.get("case", "proc"), "sig": e.get("sig", "proc-exit")}, e])
+    fails = validate_segments(ctx, "HttpMsgTrace", "HttpMsgTrace.cfg", segs, batch=400)
+    for seg, idx, out, inv in fails:
+        e = seg[1]
+        if e.get("ev") == "ProcExit":
+            report_failure(ctx, "%s:proc-exit:%s" % (label, e.get("report")), "process %s exited (%s) while serving case %s" % (e.get("proc"), e.get("report"), e.get("sig")), seg=seg)
+            continue
+        what = "%s case %s: sent %s / observed %s violates the reference semantics of HttpMsg" % (
+            label, e.get("sig"), json.dumps(e.get("in", {k: e[k] for k in e if k.startswith(("sent", "assert", "fwd", "strip"))}), sort_keys=True)[:500],
+            json.dumps(e.get("out", {k: e[k] for k in e if k.startswith("saw")}), sort_keys=True)[:500])
+        report_failure(ctx, e.get("sig", label), what, seg=seg, tlc_out=out[-3000:])
+    return segs, fails
+
+
+def http_model(ctx):
+    tlc_must_hold(ctx, "HttpMsg", "HttpMsg_MC.cfg")
+    for sw in ("IdentityAdd", "JoinedTrailerNames", "LatchInterim"):
+        tlc_must_fail(ctx, "HttpMsg", "HttpMsg_Attack_%s.cfg" % sw)
+
+
+def c02(ctx):
+    ctx.rule = ("cases = each-class sweep + seeded random combinations over method x path x query x host x 2 header slots x body classes "
+                "(class domains exported by TLC from HttpMsgGen), concretised with fresh random bytes, sent by a raw TCP client through the real "
+                "proxy+agent to a raw TCP backend; distinct = distinct class combinations")
+    ctx.assumptions = ["judged in the agent's default handler chain", "X-Forwarded-For/Via/Forwarded are proxy-maintained and neither generated nor judged",
+                       "Connection-nominated extension fields are not generated"]
+    http_model(ctx)
+    cases = http_cases(ctx, "req", 1500 if ctx.tier == "thorough" else 150)
+    cpath = os.path.join(ctx.scratch, "req_cases.json")
+    json.dump({"req": cases}, open(cpath, "w"))
+    build_relay_bins(ctx)
+    go_build_harness(ctx)
+    events, _ = drive(ctx, "httpreq", cases=cpath, timeout=3000)
+    segs, fails = http_validate(ctx, events, "request")
+    if not fails and segs:
+        def drop_header(seg):
+            e = seg[1]
+            for i, h in enumerate(e["out"]["hdrs"]):
+                if h[0].startswith("X-Custom") or h[0] == "X-Case":
+                    del e["out"]["hdrs"][i]
+                    return True
+            return False
+
+        def change_target(seg):
+            seg[1]["out"]["target"] = seg[1]["out"]["target"] + "x"
+            return True
+
+        def body_digest(seg):
+            seg[1]["out"]["body"] = [seg[1]["out"]["body"][0], "0000000000000000"]
+            return True
+        selftest(ctx, "HttpMsgTrace", "HttpMsgTrace.cfg", segs[0], [("drop-header", drop_header), ("target-changed", change_target), ("body-changed", body_digest)])
+
+
+def c03(ctx):
+    ctx.rule = ("cases = each-class sweep + seeded random combinations over status x request method x 2 header slots x framing x body pieces x "
+                "declared/undeclared trailer counts x interim responses (domains exported by TLC), written byte-exactly by a scripted raw TCP backend "
+                "behind the real agent+proxy and read by a raw client; distinct = distinct class combinations")
+    ctx.assumptions = ["header name case is not preserved by Go and not required", "Date and framing headers (Content-Length, Transfer-Encoding, Trailer) are not compared",
+                       "interim responses must not disturb the final response; whether they are forwarded is not judged", "h2c backends only in the thorough tier"]
+    thorough = ctx.tier == "thorough"
+    http_model(ctx)
+    must = [{"declared": 2, "framing": "chunked", "body": "single-small", "status": 200, "method": "GET", "interim": "none"},
+            {"declared": 3, "framing": "chunked", "body": "multi", "status": 200, "method": "GET", "interim": "none"},
+            {"interim": "103", "status": 201, "method": "GET", "framing": "length", "body": "single-small"},
+            {"interim": "103x2", "status": 200, "method": "POST", "framing": "chunked", "body": "single-small", "declared": 1},
+            {"body": "one1-then-rest", "framing": "chunked", "declared": 1, "undeclared": 1, "status": 200, "method": "GET", "interim": "none"},
+            {"body": "len1", "framing": "chunked", "declared": 1, "status": 200, "method": "GET", "interim": "none"},
+            {"body": "empty", "framing": "chunked", "declared": 1, "undeclared": 1, "status": 200, "method": "GET", "interim": "none"}]
+    cases = http_cases(ctx, "resp", 2000 if thorough else 200, must)
+    cpath = os.path.join(ctx.scratch, "resp_cases.json")
+    json.dump({"resp": cases}, open(cpath, "w"))
+    build_relay_bins(ctx, race=thorough)
+    go_build_harness(ctx)
+    events, _ = drive(ctx, "httpresp", cases=cpath, timeout=3000)
+    segs, fails = http_validate(ctx, events, "response")
+    if thorough:
+        ev2, _ = drive(ctx, "httpresp", mode="race", cases=cpath, timeout=3000)
+        http_validate(ctx, ev2, "response(-race)")
+    ok = [s for s in segs if not any(s is f[0] for f in fails) and s[1].get("ev") == "RespCase" and s[1]["out"]["hdrs"]]
+    if ok:
+        def status(seg):
+            seg[1]["out"]["status"] = 200 if seg[1]["out"]["status"] != 200 else 500
+            return True
+
+        def lose_header(seg):
+            e = seg[1]
+            for i, h in enumerate(e["out"]["hdrs"]):
+                if h[0].startswith("X-Resp") or h[0] == "Set-Cookie":
+                    del e["out"]["hdrs"][i]
+                    return True
+            return False
+
+        def body(seg):
+            if seg[1]["out"]["body"][0] == 0:
+                return False
+            seg[1]["out"]["body"] = [seg[1]["out"]["body"][0], "ffff"]
+            return True
+        cand = [s for s in ok if s[1]["out"]["body"][0] > 0 and any(h[0].startswith("X-Resp") for h in s[1]["out"]["hdrs"])] or ok
+        selftest(ctx, "HttpMsgTrace", "HttpMsgTrace.cfg", cand[0], [("status-changed", status), ("header-lost", lose_header), ("body-changed", body)])
+
+
+def c09(ctx):
+    ctx.rule = ("cases = all combinations of forward-user-id x strip-credentials x shim x sessions x forged identity header class x "
+                "Authorization class x request kind (get, post, websocket-shim open), class domains exported by TLC; the real agent binary fetches "
+                "each request from a scripted fake proxy that asserts a fresh random identity; distinct = distinct class combinations")
+    ctx.assumptions = ["the asserted identity is the X-Inverting-Proxy-User-ID header of the fake proxy's fetch reply"]
+    http_model(ctx)
+    gen = tlc_generate(ctx, "HttpMsgGen", "HttpMsgGen.cfg", "httpmsg_domains.json")
+    dom = json.load(open(gen))["id"]
+    import itertools
+    fields = ["fwd", "strip", "shim", "sessions", "forged", "auth", "kind"]
+    combos = list(itertools.product(*[dom[f] for f in fields]))
+    if ctx.tier != "thorough":
+        # quick: all flag combinations x all forged/auth/kind classes, sessions only off/on for half
+        combos = [c for c in combos if not (c[3] and c[2])]
+    cases = []
+    for i, c in enumerate(combos):
+        d = cap(dict(zip(fields, c)))
+        d["N"] = i + 1
+        cases.append(d)
+    ctx.extra["class_product_size"] = len(list(itertools.product(*[dom[f] for f in fields])))
+    cpath = os.path.join(ctx.scratch, "id_cases.json")
+    json.dump({"id": cases}, open(cpath, "w"))
+    go_build_repo(ctx, "./agent", "agent")
+    go_build_harness(ctx)
+    events, _ = drive(ctx, "identity", cases=cpath, timeout=3000)
+    segs, fails = http_validate(ctx, events, "identity")
+    okseg = [s for s in segs if not any(s is f[0] for f in fails) and s[1].get("fwd") and s[1].get("strip")]
+    if okseg:
+        def forged_first(seg):
+            seg[1]["saw_user"] = ["evil@example.com"] + seg[1]["saw_user"]
+            return True
+
+        def auth_leaks(seg):
+            seg[1]["saw_auth"] = ["Bearer leaked"]
+            return True
+        selftest(ctx, "HttpMsgTrace", "HttpMsgTrace.cfg", okseg[0], [("forged-identity-first", forged_first), ("authorization-leaks", auth_leaks)])
+
+
+CHECKS = {"C02": c02, "C03": c03, "C09": c09, "C01": c01, "C04": c04, "C07": c07, "C05": c05, "C06": c06}
 
 if __name__ == "__main__":
     pid = sys.argv[1]
